@@ -137,6 +137,16 @@ type keptResult struct {
 	op    int
 }
 
+// sigOf renders a kept result: identity for scalars and containers of the task's documents,
+// content for containers that user functions produced.
+func (w *World) sigOf(t *Task, res []interface{}) string {
+	docs := t.docs
+	if docs == nil {
+		docs = w.docs
+	}
+	return resultSig(res, containerIDs(docs))
+}
+
 // Task is one simulated caller.
 type Task struct {
 	id      int
@@ -292,6 +302,7 @@ func soloEvalP(pf *ParsedFn, doc interface{}, faults, panics [nFuncs]uint64, rec
 	}
 	rec.reset(faults)
 	rec.Panics = panics
+	rec.Self = pf.Fn
 	s := recSlot()
 	old := curRec[s]
 	curRec[s] = rec
@@ -333,7 +344,7 @@ func (w *World) checkDocs(t *Task, o *Op) {
 
 func (w *World) checkOldResults(t *Task, o *Op) {
 	for i, k := range t.results {
-		if got := shallowSig(k.res); got != k.canon {
+		if got := w.sigOf(t, k.res); got != k.canon {
 			t.fail(w.prop+":earlier-result-changed", pathKey(t.ops[k.op]),
 				fmt.Sprintf("result %d (returned by op %d: %v) changed after %v:\n  was %s\n  now %s", i, k.op, t.ops[k.op], o, clip(k.canon, 300), clip(got, 300)))
 			return
@@ -392,13 +403,14 @@ func (w *World) execOp(t *Task, idx int) {
 			o.Done = true
 			return
 		}
+		t.rec.Self = pf.Fn
 		res, out := safeCall(pf.Fn, d.Val)
 		o.Got, o.GotLog, o.Done = out, t.rec.log(), true
 		if simrt.Aborted() != 0 {
 			return
 		}
 		if res != nil && w.checkOld {
-			t.results = append(t.results, &keptResult{res: res, canon: shallowSig(res), op: idx})
+			t.results = append(t.results, &keptResult{res: res, canon: w.sigOf(t, res), op: idx})
 		}
 		if !judge || !w.judgeOutcome {
 			return
@@ -475,7 +487,7 @@ func (w *World) execOp(t *Task, idx int) {
 		res, out := safeRetrieve(o.Path.Text, d.Val, cfgArgs(o.Cfg))
 		o.Got, o.GotLog, o.Done = out, t.rec.log(), true
 		if res != nil && w.checkOld && simrt.Aborted() == 0 {
-			t.results = append(t.results, &keptResult{res: res, canon: shallowSig(res), op: idx})
+			t.results = append(t.results, &keptResult{res: res, canon: w.sigOf(t, res), op: idx})
 		}
 		if w.judgeOutcome && simrt.Aborted() == 0 {
 			if w.refInline && o.RefFn != nil {
@@ -499,7 +511,7 @@ func (w *World) execOp(t *Task, idx int) {
 			for i := range k.res {
 				k.res[i] = fmt.Sprintf("SCRIBBLE-%d-%d", t.id, i)
 			}
-			k.canon = shallowSig(k.res)
+			k.canon = w.sigOf(t, k.res)
 			t.probe("caller-scribbled-over-earlier-result")
 		}
 		o.Got, o.Done = "ok", true
@@ -507,7 +519,7 @@ func (w *World) execOp(t *Task, idx int) {
 		if len(t.results) > 0 {
 			k := t.results[o.Arg%len(t.results)]
 			k.res = append(k.res, "APPENDED", "APPENDED2")
-			k.canon = shallowSig(k.res)
+			k.canon = w.sigOf(t, k.res)
 			t.probe("caller-appended-to-earlier-result")
 		}
 		o.Got, o.Done = "ok", true
